@@ -1,6 +1,6 @@
 (* C11 — depth-limited decoding is transparent, monotone and bounded by the nesting. *)
 Require Import Scale.Bytes Scale.Eres Scale.Prog Scale.ProgFacts Scale.ProgMore Scale.Chunks Scale.Monitors Scale.CompactImpl
-  Scale.CompactSpec Scale.CompactProofs Scale.CompactTheorems Scale.Utf8 Scale.Codec Scale.CodecEnc Scale.CodecDec Scale.CodecRt Scale.CodecMore Scale.TraceEq Scale.Depth Scale.Rec.
+  Scale.CompactSpec Scale.CompactProofs Scale.CompactTheorems Scale.Utf8 Scale.Codec Scale.CodecEnc Scale.CodecDec Scale.CodecRt Scale.CodecMore Scale.TraceEq Scale.Depth Scale.Rec Scale.RecRt.
 
 (* for EVERY decoder program (hence every type), input and limit: the limited decode returns
    what the unlimited decode returns iff the nesting of descend/ascend in its trace is at
@@ -91,6 +91,16 @@ Theorem C11_traces_well_nested : forall t known bs v r evs,
   runt (dec t) known bs = (OOk v r, evs) -> forall d, end_depth d evs = d.
 Proof. exact dec_bok. Qed.
 
+(* value side for recursive types: decoding the encoding of a recursive value with limit L yields
+   the value when L covers its nesting depth (one level per Box / Vec holder on the deepest path)
+   and an error when it is deeper *)
+Theorem C11_recursive_limit_on_encodings : forall d F v bs known rest L,
+  wf_rdef d = true -> ridx_ok d = true -> renc F d v = EOk bs ->
+  if rdepth F d v <=? L
+  then exists s, run (depthmon L) (rdec F d) known (bs ++ rest) 0 = ROk (rcanon F d v) rest s
+  else exists s, run (depthmon L) (rdec F d) known (bs ++ rest) 0 = RErr s.
+Proof. exact rec_depth_limit_on_encodings. Qed.
+
 Definition ex_tree : rdef := [(0, [FTy (TPrim 1)]); (1, [FBox 32]); (2, [FBox 32; FTy (TPrim 2); FOptBox 32]); (5, [FVec 32])].
 Example C11_recursive_nonvacuous :
   wf_rdef ex_tree = true /\
@@ -112,3 +122,4 @@ Print Assumptions C11_recursive_never_overflows.
 Print Assumptions C11_recursive_budget_irrelevant.
 Print Assumptions C11_recursive_overflow_means_deep.
 Print Assumptions C11_traces_well_nested.
+Print Assumptions C11_recursive_limit_on_encodings.
